@@ -414,7 +414,8 @@ func (_this *arrayEncoderEngine) beginArrayFloat16(onComplete func()) {
 	const elemWidth = 2
 	_this.setElementByteWidth(elemWidth)
 	_this.stream.WriteStringNotLF(arrayHeadersFloat16[_this.config.Encoder.CTE.DefaultNumericFormats.Array.Float16])
-	if _this.config.Encoder.CTE.DefaultNumericFormats.Array.Float16 == configuration.CTEEncodingFormatHexadecimal {
+	// CTE can spell float array elements only in decimal or hexadecimal
+	if _this.config.Encoder.CTE.DefaultNumericFormats.Array.Float16&^configuration.CTEEncodingFormatFlagZeroFilled != configuration.CTEEncodingFormatDecimal {
 		_this.addElementsFunc = func(data []byte) {
 			for len(data) > 0 {
 				_this.writeSpaceIfNotFirstElement()
@@ -441,7 +442,8 @@ func (_this *arrayEncoderEngine) beginArrayFloat32(onComplete func()) {
 	const elemWidth = 4
 	_this.setElementByteWidth(elemWidth)
 	_this.stream.WriteStringNotLF(arrayHeadersFloat32[_this.config.Encoder.CTE.DefaultNumericFormats.Array.Float32])
-	if _this.config.Encoder.CTE.DefaultNumericFormats.Array.Float32 == configuration.CTEEncodingFormatHexadecimal {
+	// CTE can spell float array elements only in decimal or hexadecimal
+	if _this.config.Encoder.CTE.DefaultNumericFormats.Array.Float32&^configuration.CTEEncodingFormatFlagZeroFilled != configuration.CTEEncodingFormatDecimal {
 		_this.addElementsFunc = func(data []byte) {
 			for len(data) > 0 {
 				_this.writeSpaceIfNotFirstElement()
@@ -468,7 +470,8 @@ func (_this *arrayEncoderEngine) beginArrayFloat64(onComplete func()) {
 	const elemWidth = 8
 	_this.setElementByteWidth(elemWidth)
 	_this.stream.WriteStringNotLF(arrayHeadersFloat64[_this.config.Encoder.CTE.DefaultNumericFormats.Array.Float64])
-	if _this.config.Encoder.CTE.DefaultNumericFormats.Array.Float64 == configuration.CTEEncodingFormatHexadecimal {
+	// CTE can spell float array elements only in decimal or hexadecimal
+	if _this.config.Encoder.CTE.DefaultNumericFormats.Array.Float64&^configuration.CTEEncodingFormatFlagZeroFilled != configuration.CTEEncodingFormatDecimal {
 		_this.addElementsFunc = func(data []byte) {
 			for len(data) > 0 {
 				_this.writeSpaceIfNotFirstElement()
@@ -535,6 +538,7 @@ var arrayEncodeBeginOps = []func(*arrayEncoderEngine, func()){
 
 var arrayFormatsGeneral = []string{
 	configuration.CTEEncodingFormatDecimal:               "%v",
+	configuration.CTEEncodingFormatFlagZeroFilled:        "%v",
 	configuration.CTEEncodingFormatBinary:                "%b",
 	configuration.CTEEncodingFormatBinaryZeroFilled:      "%b",
 	configuration.CTEEncodingFormatOctal:                 "%o",
@@ -545,6 +549,7 @@ var arrayFormatsGeneral = []string{
 
 var arrayFormats8 = []string{
 	configuration.CTEEncodingFormatDecimal:               "%v",
+	configuration.CTEEncodingFormatFlagZeroFilled:        "%v",
 	configuration.CTEEncodingFormatBinary:                "%b",
 	configuration.CTEEncodingFormatBinaryZeroFilled:      "%08b",
 	configuration.CTEEncodingFormatOctal:                 "%o",
@@ -555,6 +560,7 @@ var arrayFormats8 = []string{
 
 var arrayFormats16 = []string{
 	configuration.CTEEncodingFormatDecimal:               "%v",
+	configuration.CTEEncodingFormatFlagZeroFilled:        "%v",
 	configuration.CTEEncodingFormatBinary:                "%b",
 	configuration.CTEEncodingFormatBinaryZeroFilled:      "%016b",
 	configuration.CTEEncodingFormatOctal:                 "%o",
@@ -565,6 +571,7 @@ var arrayFormats16 = []string{
 
 var arrayFormats32 = []string{
 	configuration.CTEEncodingFormatDecimal:               "%v",
+	configuration.CTEEncodingFormatFlagZeroFilled:        "%v",
 	configuration.CTEEncodingFormatBinary:                "%b",
 	configuration.CTEEncodingFormatBinaryZeroFilled:      "%032b",
 	configuration.CTEEncodingFormatOctal:                 "%o",
@@ -575,6 +582,7 @@ var arrayFormats32 = []string{
 
 var arrayFormats64 = []string{
 	configuration.CTEEncodingFormatDecimal:               "%v",
+	configuration.CTEEncodingFormatFlagZeroFilled:        "%v",
 	configuration.CTEEncodingFormatBinary:                "%b",
 	configuration.CTEEncodingFormatBinaryZeroFilled:      "%064b",
 	configuration.CTEEncodingFormatOctal:                 "%o",
@@ -585,6 +593,7 @@ var arrayFormats64 = []string{
 
 var arrayHeadersUint8 = []string{
 	configuration.CTEEncodingFormatDecimal:               "@u8[",
+	configuration.CTEEncodingFormatFlagZeroFilled:        "@u8[",
 	configuration.CTEEncodingFormatBinary:                "@u8b[",
 	configuration.CTEEncodingFormatBinaryZeroFilled:      "@u8b[",
 	configuration.CTEEncodingFormatOctal:                 "@u8o[",
@@ -594,6 +603,7 @@ var arrayHeadersUint8 = []string{
 }
 var arrayHeadersUint16 = []string{
 	configuration.CTEEncodingFormatDecimal:               "@u16[",
+	configuration.CTEEncodingFormatFlagZeroFilled:        "@u16[",
 	configuration.CTEEncodingFormatBinary:                "@u16b[",
 	configuration.CTEEncodingFormatBinaryZeroFilled:      "@u16b[",
 	configuration.CTEEncodingFormatOctal:                 "@u16o[",
@@ -603,6 +613,7 @@ var arrayHeadersUint16 = []string{
 }
 var arrayHeadersUint32 = []string{
 	configuration.CTEEncodingFormatDecimal:               "@u32[",
+	configuration.CTEEncodingFormatFlagZeroFilled:        "@u32[",
 	configuration.CTEEncodingFormatBinary:                "@u32b[",
 	configuration.CTEEncodingFormatBinaryZeroFilled:      "@u32b[",
 	configuration.CTEEncodingFormatOctal:                 "@u32o[",
@@ -612,6 +623,7 @@ var arrayHeadersUint32 = []string{
 }
 var arrayHeadersUint64 = []string{
 	configuration.CTEEncodingFormatDecimal:               "@u64[",
+	configuration.CTEEncodingFormatFlagZeroFilled:        "@u64[",
 	configuration.CTEEncodingFormatBinary:                "@u64b[",
 	configuration.CTEEncodingFormatBinaryZeroFilled:      "@u64b[",
 	configuration.CTEEncodingFormatOctal:                 "@u64o[",
@@ -621,6 +633,7 @@ var arrayHeadersUint64 = []string{
 }
 var arrayHeadersInt8 = []string{
 	configuration.CTEEncodingFormatDecimal:               "@i8[",
+	configuration.CTEEncodingFormatFlagZeroFilled:        "@i8[",
 	configuration.CTEEncodingFormatBinary:                "@i8b[",
 	configuration.CTEEncodingFormatBinaryZeroFilled:      "@i8b[",
 	configuration.CTEEncodingFormatOctal:                 "@i8o[",
@@ -630,6 +643,7 @@ var arrayHeadersInt8 = []string{
 }
 var arrayHeadersInt16 = []string{
 	configuration.CTEEncodingFormatDecimal:               "@i16[",
+	configuration.CTEEncodingFormatFlagZeroFilled:        "@i16[",
 	configuration.CTEEncodingFormatBinary:                "@i16b[",
 	configuration.CTEEncodingFormatBinaryZeroFilled:      "@i16b[",
 	configuration.CTEEncodingFormatOctal:                 "@i16o[",
@@ -639,6 +653,7 @@ var arrayHeadersInt16 = []string{
 }
 var arrayHeadersInt32 = []string{
 	configuration.CTEEncodingFormatDecimal:               "@i32[",
+	configuration.CTEEncodingFormatFlagZeroFilled:        "@i32[",
 	configuration.CTEEncodingFormatBinary:                "@i32b[",
 	configuration.CTEEncodingFormatBinaryZeroFilled:      "@i32b[",
 	configuration.CTEEncodingFormatOctal:                 "@i32o[",
@@ -648,6 +663,7 @@ var arrayHeadersInt32 = []string{
 }
 var arrayHeadersInt64 = []string{
 	configuration.CTEEncodingFormatDecimal:               "@i64[",
+	configuration.CTEEncodingFormatFlagZeroFilled:        "@i64[",
 	configuration.CTEEncodingFormatBinary:                "@i64b[",
 	configuration.CTEEncodingFormatBinaryZeroFilled:      "@i64b[",
 	configuration.CTEEncodingFormatOctal:                 "@i64o[",
@@ -657,28 +673,31 @@ var arrayHeadersInt64 = []string{
 }
 var arrayHeadersFloat16 = []string{
 	configuration.CTEEncodingFormatDecimal:               "@f16[",
-	configuration.CTEEncodingFormatBinary:                "@f16b[",
-	configuration.CTEEncodingFormatBinaryZeroFilled:      "@f16b[",
-	configuration.CTEEncodingFormatOctal:                 "@f16o[",
-	configuration.CTEEncodingFormatOctalZeroFilled:       "@f16o[",
+	configuration.CTEEncodingFormatFlagZeroFilled:        "@f16[",
+	configuration.CTEEncodingFormatBinary:                "@f16x[",
+	configuration.CTEEncodingFormatBinaryZeroFilled:      "@f16x[",
+	configuration.CTEEncodingFormatOctal:                 "@f16x[",
+	configuration.CTEEncodingFormatOctalZeroFilled:       "@f16x[",
 	configuration.CTEEncodingFormatHexadecimal:           "@f16x[",
 	configuration.CTEEncodingFormatHexadecimalZeroFilled: "@f16x[",
 }
 var arrayHeadersFloat32 = []string{
 	configuration.CTEEncodingFormatDecimal:               "@f32[",
-	configuration.CTEEncodingFormatBinary:                "@f32b[",
-	configuration.CTEEncodingFormatBinaryZeroFilled:      "@f32b[",
-	configuration.CTEEncodingFormatOctal:                 "@f32o[",
-	configuration.CTEEncodingFormatOctalZeroFilled:       "@f32o[",
+	configuration.CTEEncodingFormatFlagZeroFilled:        "@f32[",
+	configuration.CTEEncodingFormatBinary:                "@f32x[",
+	configuration.CTEEncodingFormatBinaryZeroFilled:      "@f32x[",
+	configuration.CTEEncodingFormatOctal:                 "@f32x[",
+	configuration.CTEEncodingFormatOctalZeroFilled:       "@f32x[",
 	configuration.CTEEncodingFormatHexadecimal:           "@f32x[",
 	configuration.CTEEncodingFormatHexadecimalZeroFilled: "@f32x[",
 }
 var arrayHeadersFloat64 = []string{
 	configuration.CTEEncodingFormatDecimal:               "@f64[",
-	configuration.CTEEncodingFormatBinary:                "@f64b[",
-	configuration.CTEEncodingFormatBinaryZeroFilled:      "@f64b[",
-	configuration.CTEEncodingFormatOctal:                 "@f64o[",
-	configuration.CTEEncodingFormatOctalZeroFilled:       "@f64o[",
+	configuration.CTEEncodingFormatFlagZeroFilled:        "@f64[",
+	configuration.CTEEncodingFormatBinary:                "@f64x[",
+	configuration.CTEEncodingFormatBinaryZeroFilled:      "@f64x[",
+	configuration.CTEEncodingFormatOctal:                 "@f64x[",
+	configuration.CTEEncodingFormatOctalZeroFilled:       "@f64x[",
 	configuration.CTEEncodingFormatHexadecimal:           "@f64x[",
 	configuration.CTEEncodingFormatHexadecimalZeroFilled: "@f64x[",
 }
